@@ -158,6 +158,10 @@ func threadRun(L *LState) {
 			if parent := L.Parent; parent != nil {
 				if L.wrapped {
 					L.Push(lv)
+					// the coroutine is dead and control is back in its resumer
+					L.G.CurrentThread = parent
+					L.Parent = nil
+					L.kill()
 					parent.Panic(L)
 				} else {
 					L.SetTop(0)
